@@ -1233,7 +1233,8 @@ class UWG(object):
             self.simTime.update_date()
 
             # simulation time increment raised to weather time step
-            self.ceil_time_step = int(math.ceil(it * self.ph)) - 1
+            # (integer arithmetic: it * dt / 3600. can round up across an hour boundary)
+            self.ceil_time_step = -(-(it * int(self.simTime.dt)) // 3600) - 1
             # minus one to be consistent with forcIP list index
             # Updating forcing instance
             # horizontal Infrared Radiation Intensity (W m-2)
